@@ -62,7 +62,9 @@ impl AdtMetadata {
         let removed_fields = evolution_steps
             .iter()
             .filter_map(|evolution| {
-                if let Evolution::FieldRemoved { name } = evolution {
+                if let Evolution::FieldRemoved { name } | Evolution::FieldMadeTransient { name } =
+                    evolution
+                {
                     Some(name.clone())
                 } else {
                     None
